@@ -406,59 +406,13 @@ def explore(fn, params, max_paths=64, feas_timeout=10.0, stats=None, max_decisio
 
 def claim_query(cl, sep=None, twin=False):
     """SMT text for a claim (negated) or for its reachability twin"""
+    nz = not (cl.note == "no-atoms")
     if twin:
-        text, names = smt.build_query(cl.axioms, cl.pcs, None)
-        return text, names
+        return smt.build(cl.axioms, cl.pcs, None, atoms_nonzero=nz)
     if cl.kind == 'eq':
         g = cl.goal
-        # declare through a pseudo SymBool carrying the variables: build with goal=None then append
-        vs = g.vars()
-        dummy = []
-        text, names = _build_with_extra(cl.axioms, cl.pcs, vs, g.atoms(), g.smt_parts(sep))
-        return text, names
-    text, names = smt.build_query(cl.axioms, cl.pcs, cl.goal)
-    return text, names
-
-
-def _build_with_extra(axioms, pcs, extra_vars, extra_atoms, goal_text):
-    # reuse build_query's relevance closure by passing a fake SymBool that mentions the variables
-    class _Fake(object):
-        k = 'fake'
-    vars_ = set(extra_vars)
-    core = list(pcs)
-    for b in core:
-        smt.sb_vars(b, vars_)
-    atoms = set(extra_atoms)
-    for b in core + list(axioms):
-        smt.sb_atoms(b, atoms)
-    atoms |= set(P._ATOMS)
-    pool = [(smt.sb_vars(b), b.smt()) for b in axioms] + [(a.vars(), "(not (= %s 0.0))" % a.smt()) for a in atoms]
-    chosen = []
-    changed = True
-    remaining = pool
-    while changed:
-        changed = False
-        rest = []
-        for vs, txt in remaining:
-            if not vs or (vs & vars_):
-                chosen.append(txt)
-                if not vs <= vars_:
-                    vars_ |= vs
-                    changed = True
-            else:
-                rest.append((vs, txt))
-        remaining = rest
-    names = P.var_names()
-    used = sorted(vars_)
-    lines = ["(set-option :produce-models true)"]
-    for i in used:
-        lines.append("(declare-const %s Real)" % names[i])
-    for t in chosen:
-        lines.append("(assert %s)" % t)
-    for b in core:
-        lines.append("(assert %s)" % b.smt())
-    lines.append("(assert %s)" % goal_text)
-    return "\n".join(lines) + "\n", [names[i] for i in used]
+        return smt.build(cl.axioms, cl.pcs, g.smt_parts(sep), g.vars(), g.atoms(), atoms_nonzero=nz)
+    return smt.build(cl.axioms, cl.pcs, cl.goal.smt(), smt.sb_vars(cl.goal), smt.sb_atoms(cl.goal), atoms_nonzero=nz)
 
 
 def box_text(names, bound=8):
